@@ -96,10 +96,12 @@ type c18Conn struct {
 	rec   *c18Recorder
 }
 
-func (c *c18Conn) Prepare(q string) (driver.Stmt, error) { return nil, errors.New("c18Conn.Prepare: use PrepareContext") }
-func (c *c18Conn) Close() error                          { return c.inner.Close() }
-func (c *c18Conn) Begin() (driver.Tx, error)             { return nil, errors.New("c18Conn.Begin: use BeginTx") }
-func (c *c18Conn) Ping(ctx context.Context) error        { return c.inner.Ping(ctx) }
+func (c *c18Conn) Prepare(q string) (driver.Stmt, error) {
+	return nil, errors.New("c18Conn.Prepare: use PrepareContext")
+}
+func (c *c18Conn) Close() error                   { return c.inner.Close() }
+func (c *c18Conn) Begin() (driver.Tx, error)      { return nil, errors.New("c18Conn.Begin: use BeginTx") }
+func (c *c18Conn) Ping(ctx context.Context) error { return c.inner.Ping(ctx) }
 func (c *c18Conn) BeginTx(ctx context.Context, opts driver.TxOptions) (driver.Tx, error) {
 	c.rec.rec(c18Event{Kind: "begin", Ctx: ctx})
 	tx, err := c.inner.BeginTx(ctx, opts)
@@ -139,7 +141,10 @@ type c18Stmt struct {
 	sql   string
 }
 
-func (s *c18Stmt) Close() error  { s.rec.rec(c18Event{Kind: "stmt_close", SQL: s.sql}); return s.inner.Close() }
+func (s *c18Stmt) Close() error {
+	s.rec.rec(c18Event{Kind: "stmt_close", SQL: s.sql})
+	return s.inner.Close()
+}
 func (s *c18Stmt) NumInput() int { return s.inner.NumInput() }
 func (s *c18Stmt) Exec(args []driver.Value) (driver.Result, error) {
 	return nil, errors.New("c18Stmt.Exec: use ExecContext")
